@@ -209,6 +209,11 @@ def classify(js, stdout, units):
                     # Rust and no property here forbids it: recorded, never a violation
                     entry.setdefault("nan_checks_ignored", []).append(f"{desc} @ {where}")
                     continue
+                if status == "Failure" and str(c.get("function", "")).startswith(("std::sys::", "std::os::", "libc::")):
+                    # the harness reached the operating system (getrandom for RandomState, clocks, files): CBMC has no
+                    # model of it -> undecided, never a property violation
+                    entry["unsupported"].append(f"environment call not modelled: {desc[:80]} @ {where}")
+                    continue
                 if status == "Failure":
                     if cat == "unsupported_construct" or "not currently supported" in desc or cat == "unwind" or "unwinding assertion" in desc:
                         entry["unsupported"].append(f"{desc[:120]} @ {where}")
